@@ -311,6 +311,35 @@ m = {
  "notes": "All checks: ./bin/check <ID> --tier quick|thorough; exit 0 held, 1 VIOLATION, 2 tool error. Known findings: /verif/known_findings.json. Design: /verif/DESIGN.md.",
  "not_applicable": [{"property_id": k, "reason": v} for k, v in sorted(NOT_YET.items())],
 }
+# families added in the later strengthening rounds (DESIGN.md 12.5)
+HEADS = (" A sample of the judged lines is replayed as the head of `if` / `else if` / `while` in a script (drivers/structure.py) and must have "
+         "the same effect as the plain line, the body running exactly when the plain line's status is 0.")
+EXTRA = {
+ "C01": HEADS, "C03": HEADS, "C13": HEADS + " Produced text also stands behind a literal prefix (`k=$V`, `--o=$V`).",
+ "C04": HEADS + " The redirected command also is the middle stage and the third / fourth stage of its pipeline.",
+ "C10": HEADS + " TLC-simulated histories of assignment / export / unset / read / prefixed commands (spec/EnvDir.tla) with every name expanded "
+        "after every operation decide 'the current value'.",
+ "C11": HEADS + " Builtins as inner commands are judged against their own stand-alone output.",
+ "C12": HEADS + " Words are also placed in `for` word lists; a brace group and `*` in one word (the group first, each produced word a pattern "
+        "of its own) and ranges whose bounds are next to the 32-bit limits are part of the model.",
+ "C02": " Stages that are stopped and continued from outside while the pipeline runs have not terminated (controller-stage scenarios).",
+ "C05": " Seed lines hold numeric bounds next to the machine limits and unterminated references.",
+ "C07": " spec/Launch.tla also models who hands the terminal over (only the shell = pinned: negative control) and the shell taking it back; "
+        "foreground jobs that read the terminal at once are run under widened fork windows; directed sessions cover an older job ending while "
+        "a younger one lives.",
+ "C09": " `read` is modelled for 1..3 names and 0..4 fields, and two assignment / prefix / export words on one line.",
+ "C14": " Conditions are also lists whose deciding (last executed) command is the programmed one.",
+ "C15": " Positional parameters in `for` word lists (script, function, sourced file) and the status of functions / sourced files ending in an "
+        "untaken `if` or a finished `while` are directed scenarios.",
+ "C16": " Two further entries place the line between other, indented lines of a script / function body.",
+ "C17": " Every value is shown by name, listed and used under three kinds of name; aliases are used as the whole command (also names of digits "
+        "and dots) at every position.",
+ "C18": " One history stores every text and searches every pattern (also patterns with leading / trailing backslashes).",
+ "C19": " Float powers of a negative base with whole exponents beyond 2^31 are checked for the parity of the exponent.",
+ "C20": " A file inside a completed directory (two completions on one word) is part of the pty layer.",
+}
+for pid, extra in EXTRA.items():
+    CHECKS[pid]["text"] += extra
 for pid in sorted(CHECKS):
     c = CHECKS[pid]
     m["checks"].append({
